@@ -75,6 +75,8 @@ def _enclosing_lists(ctx, rep, cl):
                 pre = ("carried", name, li.uid)
                 if post is None or post == pre:
                     continue
+                if post[0] == "loopout" and post[1] == name:
+                    continue  # changed by a nested loop, which is checked on its own
                 okp = post in (("binop", "+", pre, lv), ("binop", "+", lv, pre))
                 rep.ob(cl + ".enclosing-append-only", "%s:%s" % (f.name, role), okp and li.iter[0] == "global", "%s grows by %s; only elements of the constant list may be moved into it" % (role, show(post)), W(f, li.node), key="%s.enclosing-append-only|%s" % (cl, role))
     # returns (head, val, tail) or the recursive call on the stripped value
@@ -111,7 +113,7 @@ def c07(ctx, rep):
     rep.ob("C07.logging-floor", "per-line closure", n >= 8, "logging calls found in the per-line closure: %d (floor 8)" % n, "", nontrivial=False)
     rep.ob("C07.search-stops-only-after-replacement", "replace_matching_item", not out.get("identity_stop"),
            "the pattern search stops as soon as a pattern matched, but _anonymize_value can return the captured text unchanged (%s): a reserved word captured by an earlier pattern (e.g. 'enable secret level 15 5 $1$...' captures 'level') ends the search and the catch-all never sees the hash" % out.get("identity_conds"),
-           W(r.fn), witness="enable secret level 15 5 $1$wtHI$0rN7R8PKwC30AsCGA77vy.", key="C07.search-stops-only-after-replacement|replace_matching_item")
+           W(r.fn), witness="enable secret level 15 5 $1$wtHI$0rN7R8PKwC30AsCGA77vy.", key="C07.search-stops-only-after-replacement|" + ";".join(sorted(out.get("identity_conds") or [])))
     from . import refpatterns
     refpatterns.check(ctx, rep, "C07", prefix, groups, parts)
 
